@@ -573,7 +573,17 @@ func (x *FnExec) writeLeaf(st *State, p *Place, key string, ls Sort, v *Term) {
 	}
 }
 
+func (x *FnExec) noteRefKey(prefix string, t types.Type) {
+	switch t.Underlying().(type) {
+	case *types.Pointer, *types.Map:
+		x.refKeys[prefix] = true
+	case *types.Slice:
+		x.refKeys[prefix+".arr"] = true
+	}
+}
+
 func (x *FnExec) loadTyped(st *State, p *Place, prefix string, t types.Type) Value {
+	x.noteRefKey(prefix, t)
 	if s := x.scalarSort(t); s != "" {
 		v := x.readLeaf(st, p, prefix, s)
 		x.rangeFact(v, t)
@@ -605,6 +615,7 @@ func (x *FnExec) loadTyped(st *State, p *Place, prefix string, t types.Type) Val
 }
 
 func (x *FnExec) storeTyped(st *State, p *Place, prefix string, t types.Type, v Value) {
+	x.noteRefKey(prefix, t)
 	if s := x.scalarSort(t); s != "" {
 		tv, ok := v.(*Term)
 		if !ok {
